@@ -692,6 +692,46 @@ func runC15(args []string) int {
 			rep.Fail("c15:fiat-shamir-mismatch", "the in-circuit transcript challenges differ from gnark-crypto's: "+shortErr(err), nil)
 		}
 	}
+	// sponge cases for the Gallina Keccak model: the same messages, reference digests from x/crypto/sha3
+	var spCases, spVarCases []string
+	spParams := func(kind string) (ds, rate, outlen int, ok bool) {
+		switch kind {
+		case "sha3-256":
+			return 6, 136, 32, true
+		case "sha3-384":
+			return 6, 104, 48, true
+		case "sha3-512":
+			return 6, 72, 64, true
+		case "keccak256":
+			return 1, 136, 32, true
+		case "keccak512":
+			return 1, 72, 64, true
+		}
+		return 0, 0, 0, false
+	}
+	for _, jb := range jobs {
+		ds, rate, outlen, ok := spParams(jb.kind)
+		if !ok || jb.wrong || jb.mode != "engine" || len(jb.chunks) > 0 {
+			continue
+		}
+		ref := refBinHash(jb.kind)
+		ref.Write(jb.msg)
+		dg := ref.Sum(nil)
+		if !jb.useLen && len(spCases) < 30 {
+			spCases = append(spCases, fmt.Sprintf("(%d%%N, %d, %d, %s, %s)", ds, rate, outlen, nlist(jb.msg), nlist(dg)))
+		}
+		if jb.useLen && len(spVarCases) < 24 {
+			buf := make([]byte, jb.maxLen)
+			copy(buf, jb.msg)
+			for i := len(jb.msg); i < jb.maxLen; i++ {
+				buf[i] = byte(0xA5 ^ i)
+			}
+			spVarCases = append(spVarCases, fmt.Sprintf("(%d%%N, %d, %d, %s, %d, %d, %d, %s)", ds, rate, outlen, nlist(buf), jb.min, jb.maxLen, len(jb.msg), nlist(dg)))
+		}
+	}
+	khdr := "From Coq Require Import NArith List Bool.\nFrom GnarkV Require Import Std.Keccak Std.KeccakCases.\nImport ListNotations.\n"
+	writeFile(o.Out, "cases_C15_sponge.v", khdr+fmt.Sprintf("Definition spcases : list (N * nat * nat * list N * list N) := %s.\nDefinition mism_sponge_model := Eval vm_compute in sp_mismatches 0 spcases.\nPrint mism_sponge_model.\n", coqlistNL(spCases)))
+	writeFile(o.Out, "cases_C15_spongevar.v", khdr+fmt.Sprintf("Definition spvarcases : list (N * nat * nat * list N * nat * nat * nat * list N) := %s.\nDefinition mism_sponge_varlen_model := Eval vm_compute in spvar_mismatches 0 spvarcases.\nPrint mism_sponge_varlen_model.\n", coqlistNL(spVarCases)))
 	hdr := "From Coq Require Import NArith List Bool.\nFrom GnarkV Require Import Std.Sha256 Std.Sha256Cases.\nImport ListNotations.\n"
 	half := len(shaCases) / 2
 	for i, part := range [][]string{shaCases[:half], shaCases[half:]} {
@@ -708,7 +748,7 @@ func runC15(args []string) int {
 		}
 		writeFile(o.Out, fmt.Sprintf("cases_C15_var%d.v", i), hdr+fmt.Sprintf("Definition varcases : list (list N * nat * nat * nat * list N) := %s.\nDefinition mism_sha256_varlen_model_%d := Eval vm_compute in var_mismatches 0 varcases.\nPrint mism_sha256_varlen_model_%d.\n", coqlistNL(varCases[lo:hi]), i, i))
 	}
-	rep.CoqCases = len(shaCases) + len(varCases)
+	rep.CoqCases = len(shaCases) + len(varCases) + len(spCases) + len(spVarCases)
 	_ = strings.Join
 	rep.Write(o.Out)
 	return 0
